@@ -147,6 +147,9 @@ def run(tier, seed):
     _loops(rep, flows)
     _nan_exits(rep, ctx)
     _labels(rep, ctx)
+    from ..rules import bbstate
+    nst = bbstate.check(rep, ctx)
+    rep.floor('STATE.def-before-use', nst, 90)
     rep.floor('SPECIES', nsp, 15)
     rep.floor('TIMES.nonneg', ntm, 1200)
     rep.floor('LOOP.progress', sum(1 for i in rep.instances if i.rule == 'LOOP.progress'), 15)
